@@ -66,6 +66,12 @@ pub fn run(op: &str, a: &Ints) -> Ints {
             Err(_) => Err(()),
         }),
         "imm" => guard(|| Ok(vec![to_n(&get_imm(a[0] as i32, a[1] as u32))])),
+        // a SEQUENCE of IMM look-ups in one process, one after the other (a[0] = count, then year month pairs): whatever was asked
+        // before must not matter
+        "immseq" => guard(|| {
+            let n = a[0] as usize;
+            Ok((0..n).map(|i| to_n(&get_imm(a[1 + 2 * i] as i32, a[2 + 2 * i] as u32))).collect())
+        }),
         "eom" => guard(|| Ok(vec![to_n(&get_eom(a[0] as i32, a[1] as u32))])),
         "isimm" => guard(|| Ok(vec![is_imm(&from_n(a[0])) as i128])),
         "iseom" => guard(|| Ok(vec![is_eom(&from_n(a[0])) as i128])),
